@@ -270,6 +270,8 @@ def c06_rf10(run):
 def c02_rf9(run):
     rf_x86.rf9(run)
     run.min_instances('RF9', 1500)
+    rf_x86.rf7i(run)
+    run.min_instances('RF7i', 40)
 
 
 def c02_rf26(run):
